@@ -11,6 +11,11 @@ SLUG_STD_RENUMBER = "downgrade-standard-renumbers-16-colour-index"
 
 
 # ------------------------------------------------------------------ wire format
+def unwrap(f):
+    """the function behind functools.lru_cache, or f itself when the code does not (any longer) cache it that way"""
+    return getattr(f, "__wrapped__", f)
+
+
 def enc_triplet(t):
     return "-" if t is None else "%s,%s,%s" % (t[0], t[1], t[2])
 
@@ -192,7 +197,7 @@ def work_triplets(job):
 
     triplets, systems, wrapped = job
     orc = oracle()
-    dg = Color.downgrade.__wrapped__ if wrapped else Color.downgrade
+    dg = unwrap(Color.downgrade) if wrapped else Color.downgrade
     answers = []
     failures = []
     n = 0
@@ -226,7 +231,7 @@ def work_block(job):
 
     r, g, systems = job
     orc = oracle()
-    dg = Color.downgrade.__wrapped__
+    dg = unwrap(Color.downgrade)
     out = {}
     failures = []
     n = 0
